@@ -23,7 +23,7 @@ META = {
     "assumptions": ["pure-Python predicate evaluator over exact field values is the reference", "datetime thresholds parsed by an independent integer-arithmetic parser"],
     "deciding": ["post:filter", "post:filter_spatial", "history:order/grouping/idempotence"],
 }
-META["added"] = 'Added: histories that leave filters set on the source, origin_time thresholds between two integer milliseconds, zero-valued attributes and thresholds, catalogs already bound to another region (constructor or earlier filter_spatial) before filter_spatial(region). events on the exclusive outer east / north edge with no event beyond the box. empty statement lists. NaN attributes.'
+META["added"] = 'Added: histories that leave filters set on the source, origin_time thresholds between two integer milliseconds, zero-valued attributes and thresholds, catalogs already bound to another region (constructor or earlier filter_spatial) before filter_spatial(region). events on the exclusive outer east / north edge with no event beyond the box. empty statement lists. NaN attributes. copy-then-original filter histories.'
 MANIFEST = {
     "technique": "runtime post-conditions with OLD snapshots on the real filter / filter_spatial (sub-sequence, bit-identical rows, source untouched when in_place=False, no shared memory) + pure-Python predicate reference + sequential history checker over permutations, groupings, re-application and mixed in_place histories",
     "level_text": "Every call of filter/filter_spatial in the workload is checked against OLD state (kept rows are a bit-identical sub-sequence; source untouched and unshared with in_place=False); kept ids are compared with a pure-Python predicate evaluator; for each case all permutations and all sequential groupings of up to 4 statements, re-application and in_place variants must give the same catalog; datetime statements must equal the origin-time statement of the same instant.",
@@ -243,6 +243,24 @@ def ex_filter(ctx, ev, statements, seed=0):
         c.filter(list(statements), in_place=False)
         return c.filter(list(statements))
     expect(got_rows(notinplace_then_inplace), "filter(S, in_place=False) then filter(S) on the source")
+
+    if len(statements) >= 2:
+        # history: a is filtered by the list L into a copy b; b is then filtered in place by another statement T; a is filtered by L again -
+        # a must be filtered by L only, and the caller's list L must be left as it was
+        L = [statements[0]]
+        T = statements[1]
+        want_L = ref_keep(rows, L)
+
+        def copy_then_original():
+            a = mk(ev)
+            b = a.filter(L, in_place=False)
+            b.filter(T)
+            return a.filter() if seed % 2 else a.filter(L)
+        got = got_rows(copy_then_original)
+        ctx.mon("history:order/grouping/idempotence", 1)
+        if got is not None and (canon_rows(got) != canon_rows(want_L) or L != [statements[0]]):
+            ctx.violate("filtering a copy changes what the original catalog is filtered by", rc, observed={"kept": len(got), "caller_list": L[:3]},
+                        expected={"kept": len(want_L), "caller_list": [statements[0]]}, tags=dict(tags, history="a.filter(L, copy) -> b; b.filter(T); a.filter(L)"))
 
     def ctor_filters():
         return mk(ev, filters=list(statements)).filter()
